@@ -14,7 +14,7 @@ OPQ_MODELS = {
                 'min': 'method:opq:scalar', 'max': 'method:opq:scalar', '__isinstance__': {'np.ndarray': True}},
     'slot': {'byteswap': 'method:opq:slot', 'tobytes': 'method:bytes', '__isinstance__': {'np.ndarray': None}},
     'sdtype': {'names': 'opq:names', '__getitem__': 'method:opq:dtype', 'newbyteorder': 'method:opq:sdtype', '__isinstance__': {'np.dtype': True}},
-    'dtype': {'name': 'str', 'kind': 'str', 'base': 'opq:dtype', 'isnative': 'bool', 'newbyteorder': 'method:opq:dtype', '__isinstance__': {'np.dtype': True}},
+    'dtype': {'name': 'str', 'kind': 'str', 'base': 'opq:dtype', 'itemsize': 'int:nat', 'isnative': 'bool', 'newbyteorder': 'method:opq:dtype', '__isinstance__': {'np.dtype': True}},
     'rowgen': {'__isinstance__': {}},
     'row': {'__isinstance__': {}},
 }
